@@ -44,6 +44,8 @@ def bodies():
         ('just-over-quarter-bad', b'\xff' * 26 + b'a' * 74),
         ('base64ish', b'aGVsbG8gd29ybGQ='),
         ('hexish', b'68656c6c6f'),
+        # no 0x00 byte, but some codecs spell U+0000 with these sequences
+        ('escaped-nul', b'<p>x +AAA- y \\x00 z \\u0000 w \\0 v \\U00000000 u</p>'),
     ]
 
 
@@ -151,7 +153,7 @@ def run(rep, ctx):
     else:
         labels += names + [n.upper() for n in names] + [n.replace('_', '-') for n in names]
     rep.rule = ('every codec name and alias the runtime knows (%d) plus %d odd/garbled labels, placed in the Content-Type header, a meta tag, '
-                'an XML prolog, beyond the 2 KB window, and in conflict with each other, x 13 body classes (empty, ASCII, UTF-8, Latin-1, '
+                'an XML prolog, beyond the 2 KB window, and in conflict with each other, x 14 body classes (empty, ASCII, UTF-8, Latin-1, '
                 'UTF-16 with/without BOM, binary, NULs, exactly 25%% and just over 25%% undecodable); non-trivial = the input carries a label; '
                 'distinct by (headers, body)' % (len(names), len(ODD_LABELS)))
     rep.trusted += ['modelled rather than verified (oracles, values computed per input by the harness from pinned copies of the documented '
